@@ -383,6 +383,24 @@ def bounded_native(ck):
                     finally:
                         if os.path.exists(path):
                             os.unlink(path)
+                # a second grid written over the first at the same path (same shape, another dtype): what is read back is the second grid
+                if dt is np.float64:
+                    for fmt, ext in (("hdf5", "h5"), ("fits", "fits")):
+                        path = os.path.join(tmp, "ow%d.%s" % (n, ext))
+                        n += 1
+                        try:
+                            first = NssGrid((rng.integers(-50, 50, size=shape)).astype(np.int16 if trial % 2 else np.int64), axes, list(names))
+                            first.write(path, format=fmt)
+                            g.write(path, format=fmt, overwrite=True)
+                            b = NssGrid.read(path, format=fmt)
+                            if not (b.data.dtype.newbyteorder("=") == data.dtype and np.array_equal(b.data, data)):
+                                fails.append({"obligation": "bounded.roundtrip", "clause": "a grid written over an earlier one at the same path (same shape, another dtype) is read back exactly", "input": {"format": fmt, "first dtype": str(first.data.dtype), "second dtype": str(data.dtype), "shape": list(shape)},
+                                              "observed": {"dtype read back": str(b.data.dtype), "max abs error": float(np.abs(np.asarray(b.data, float) - data).max())}})
+                        except Exception as ex:
+                            fails.append({"obligation": "bounded.roundtrip", "clause": "overwriting an existing grid file succeeds", "input": {"format": fmt, "names": names}, "observed": repr(ex)[:160]})
+                        finally:
+                            if os.path.exists(path):
+                                os.unlink(path)
                 # exactly at every kind of node (first, interior, last): the stored sub-grid, bit for bit
                 if dt is np.float64 and len(names) > 1:
                     for k_ in range(len(names)):
